@@ -15,7 +15,11 @@ STRENGTHENED = {
     'C01-m1', 'C03-m1', 'C03-m2', 'C04-m3', 'C05-m2', 'C06-m1', 'C06-m2',
     'C06-m3', 'C07-m3', 'C08-m2', 'C12-m1', 'C13-m1', 'C14-m1', 'C16-m2',
     'C16-m3', 'C17-m1', 'C18-m1', 'C18-m2', 'C18-m3', 'C19-m1', 'C20-m2',
-    'C20-m3'}
+    'C20-m3',
+    # wave 2
+    'C01-m5', 'C02-m6', 'C04-m4', 'C04-m5', 'C04-m6', 'C05-m5', 'C05-m6', 'C07-m4', 'C07-m6', 'C08-m5', 'C08-m6',
+    'C09-m5', 'C09-m6', 'C11-m6', 'C12-m5', 'C12-m6', 'C13-m5', 'C13-m6', 'C16-m6', 'C18-m4', 'C18-m6', 'C19-m6',
+    'C20-m5', 'C20-m6', 'C20-m7'}
 
 
 def title(notes):
